@@ -31,7 +31,9 @@ THEOREMS['C13'] = ['FB.C13_hash_iff', 'FB.C13_metadata_iff', 'FB.C13_read_replay
 THEOREMS['C08'] = THEOREMS.get('C08', [])
 THEOREMS['C09'] = ['FB.Conc.P4.ordered_no_deadlock', 'FB.Conc.P1.claim_unique', 'FB.Conc.P1.executed_at_most_once',
                    'FB.Conc.P2.count_is_registered', 'FB.Conc.P2.arbitration_correct', 'FB.Conc.P2.arbInv_run',
-                   'FB.Conc.P2.arbitration_counterexample_before_fix', 'FB.BuildDirs.started_inv', 'FB.BuildDirs.registerUp_inv']
+                   'FB.Conc.P2.arbitration_counterexample_before_fix', 'FB.BuildDirs.started_inv', 'FB.BuildDirs.registerUp_inv',
+                   'FB.ConcDirs.created_iff_new', 'FB.ConcDirs.created_sound', 'FB.ConcDirs.j_run', 'FB.BuildDirs.started_post',
+                   'FB.ConcDirs.ex_created', 'FB.ConcDirs.ex_done']
 THEOREMS['C17'] = ['FB.Conc.P3.C17_no_append_after_close', 'FB.Conc.P3.C17_completed_in_record', 'FB.Conc.P3.C17_sequential_fence',
                    'FB.Conc.P3.straggler_counterexample']
 THEOREMS['C08'] += ['FB.Conc.P1.claim_unique', 'FB.Conc.P1.executed_at_most_once']
@@ -875,9 +877,14 @@ def check_C18(tier):
     return finish('C18', rep, gate)
 
 
+DIRS_SCENARIOS = {'shared_new_dir_deep': ['a/b/x', 'a/b/y'], 'sibling_dirs': ['a/b/x', 'a/c/y']}
+
+
 def _scenario_classifier(name):
     if name in ('shared_new_dir', 'three_threads'):
         return threadcheck.classify_p2
+    if name in DIRS_SCENARIOS:
+        return threadcheck.classify_dirs
     if name in ('dup_file', 'dup_sub', 'dup_sub_cached', 'dup_sub_json_equal', 'dup_sub_json_equal_cached'):
         return threadcheck.classify_p1
     return None
@@ -913,18 +920,20 @@ def explore_threads(prop, tier, rep, names, bound, cap):
             classify, proto = threadcheck.classify_p2, ('P2', 2)
         elif name == 'three_threads':
             classify, proto = threadcheck.classify_p2, ('P2', 3)
+        elif name in DIRS_SCENARIOS:
+            classify, proto = threadcheck.classify_dirs, ('DIRS', 2, DIRS_SCENARIOS[name])
         elif name in ('dup_file', 'dup_sub', 'dup_sub_cached', 'dup_sub_json_equal', 'dup_sub_json_equal_cached'):
             classify, proto = threadcheck.classify_p1, ('P1', 2)
         n, fails, e, maxdec, nseq, cl = results[name]
         classes |= set(cl)
         if proto is not None:
             mo, msched = threadcheck.model_outcomes(*proto)
-            tie[name] = {'model': '%s with %d threads' % proto, 'model_schedules': msched, 'model_outcomes': sorted(mo),
+            tie[name] = {'model': '%s with %d threads' % proto[:2], 'model_schedules': msched, 'model_outcomes': sorted(mo),
                          'real_outcomes': sorted(classes), 'real_schedules': n}
             extra = classes - mo
             if extra:
                 rep.violation('tie_%s' % name, {'property': prop, 'kind': 'correspondence-broken',
-                                                'no_longer_checks': 'outcomes of the real code under the explored schedules are outcomes of the protocol model FB.Conc.%s' % proto[0],
+                                                'no_longer_checks': 'outcomes of the real code under the explored schedules are outcomes of the protocol model %s' % ('FB.ConcDirs' if proto[0] == 'DIRS' else 'FB.Conc.' + proto[0]),
                                                 'scenario': name, 'real_only_outcomes': sorted(extra), 'model_outcomes': sorted(mo),
                                                 'failing_schedules': [f for f in fails if core.match_known(prop, None, [f]) is None][:3]},
                               note='real outcome(s) %s not reachable in the model %s' % (sorted(extra), proto[0]),
